@@ -66,6 +66,7 @@ fn main() {
                 Some("stream") => stream_cli::replay(&doc),
                 Some("threads") | Some("lockstep") => threads_cli::replay(&doc),
                 Some("cli") => cli_cli::replay(&doc, &args[3..]),
+                Some("perm") => threads_cli::replay_perm(&doc),
                 other => harness_error(&format!("replay: unknown engine {other:?}")),
             };
             if code == 1 {
